@@ -33,16 +33,17 @@ func main() {
 		Rule: "part A: every history (to the depth in the family name, from three start states) of Mark/re-mark/unmark, drop, gcfire (the Go finaliser, fired by the harness through the seam only for objects that are unreachable from the program and from the pool), " +
 			"ExtractPendingFinalize/Release, resurrect, ExtractAllMarkedFinalize/Release on the real ClonePool and UnsafePool, replayed on a fresh pool per transition, the refgc ledger consulted at every extraction " +
 			"(states = distinct canonical states: full reflective dump of the pool + finaliser registrations + program side + ledger; transitions = events executed); " +
-			"part B: every well-formed sequence (to the length in the family name) of create/re-mark/unmeta/drop/gcfire/collectgarbage/enter-context/leave-context(return,error,kill) events on a real Runtime, " +
-			"rendered once as a single Lua chunk (runtime.callcontext) and once event by event through the Go API (Thread.CallContext, Runtime.Close), every __gc and ReleaseResources invocation logged with context depth/status/cpu; " +
-			"io: io.open/io.tmpfile userdata dropped without close, descriptors counted in /proc/self/fd; non-trivial = every case; distinct = distinct canonical end states / logs",
+			"part B: every well-formed sequence (to the length in the family name) of create/re-mark/unmeta/drop/gcfire/collectgarbage/step/enter-context/leave-context(return,error,kill,loop) operations on a real Runtime followed by Runtime.Close, " +
+			"rendered as a single Lua chunk (runtime.callcontext) and operation by operation through the Go API (Thread.CallContext; with and without a VM step before each context end / Close), every __gc and ReleaseResources invocation logged with context depth/status/cpu and judged by refgc.RTMon; " +
+			"B-io: io.open/io.tmpfile userdata dropped without close, descriptors counted in /proc/self/fd; non-trivial = every case; distinct = distinct canonical end states / logs",
 		Assumptions: []string{
-			"the only thing trusted about Go's collector is that it runs a finaliser only for an object that is unreachable: gcfire is enabled only for an object the program dropped and that the pool structure does not reference (checked by reflection over the live pool)",
-			"real runtime.SetFinalizer is never reached by the pools (seam installed once per process); the Runtime's own finaliser is cleared after rt.New",
+			"the only thing trusted about Go's collector is that it runs a finaliser only for an object that is unreachable: gcfire is enabled only for an object the program dropped and that the structure of no live pool references (checked by reflection over the real pools)",
+			"real runtime.SetFinalizer is never reached by the pools (seam installed once per process); the Runtime's own finaliser is cleared after rt.New; a second SetFinalizer on an object that still has one is reported (real Go aborts the process)",
 			"Mark(v, 0) (unmark), dropping a flag in a re-mark, marks made after the close-time finalisers were extracted, and removing/replacing the metatable by one without __gc are not determined by the statement: the obligation becomes optional (at most once, not required)",
-			"re-marking a value inside a different isolated context than the one it was marked in (two pools own it) is excluded from part B: the statement does not say which context owns it",
-			"order is checked for finalisers (statement) and for every pool batch (Pool interface contract); release order at runtime level is not checked beyond release-after-own-finaliser",
-			"part B runs on the default pool (ClonePool); UnsafePool is covered at pool level only",
+			"pool level: between ExtractAllMarkedFinalize and ExtractAllMarkedRelease only mark/drop/gcfire/resurrect are explored (the runtime does not extract pending batches while close-time finalisers run)",
+			"a value re-marked inside a second isolated context while the first is alive has no determined owner: it is not judged any further (only the SetFinalizer abort is reported)",
+			"order is checked for finalisers (statement) and for every pool batch (Pool interface contract); release order at runtime level is not checked beyond release-after-own-finaliser; no error message, no cpu amount other than through inequalities",
+			"part B runs on the default pool (ClonePool); UnsafePool is covered at pool level only; interleavings of the Go finaliser goroutine with the extract calls (E3) are not explored",
 		},
 		Init: func(tier string) {
 			// millions of tiny replays / fresh runtimes.  Page faults are very
